@@ -76,6 +76,13 @@ func (c19) Gen(rs uint64, tier string, race bool) interface{} {
 		a.Names = append(a.Names, fmt.Sprintf("s%d", i))
 		a.Seqs = append(a.Seqs, genResidues(r, l, a.Alphabet, lower, "-", 0.1))
 	}
+	if r.Chance(0.1) {
+		// names with blanks and punctuation, some of which a "clean names" step would make equal
+		punct := []string{"a b", "a-b", "t.1", "t,1", "sp|P1|X", " lead", "(x)"}
+		for i := range a.Names {
+			a.Names[i] = punct[i%len(punct)]
+		}
+	}
 	if a.Alphabet == align.NUCLEOTIDS && r.Chance(0.15) {
 		// RNA: U is a nucleotide code too
 		for i := range a.Seqs {
